@@ -83,10 +83,24 @@ func corpusMain() *MProgram {
 			fld(3, "cc", "", tStruct("Inner")),
 			fld(4, "dd", "", tList(tBase("i32"))),
 		}},
+		{Kind: "struct", Name: "Many", Fields: manyRequired(14)},
 		{Kind: "exception", Name: "Oops", Fields: []MField{
 			fld(1, "msg", "", tBase("string")),
 			fld(2, "code", "optional", tBase("i32")),
 		}},
 	}
 	return &MProgram{Files: []*MFile{f}}
+}
+
+// manyRequired: n required scalar fields (more than one word of the fastgo required-field bitset).
+func manyRequired(n int) []MField {
+	var fs []MField
+	for i := 1; i <= n; i++ {
+		t := tBase("i32")
+		if i%5 == 0 {
+			t = tBase("string")
+		}
+		fs = append(fs, fld(i, "q"+string(rune('a'+i-1)), "required", t))
+	}
+	return fs
 }
